@@ -42,10 +42,18 @@ MANIFEST = dict(
          "stream C08_pp_read_bits, decrunch_pp(ppRender tokens) = ppExpand tokens for EVERY legal token stream of literal runs and matches — "
          "all length classes, 7-bit and table offsets, overlapping copies, all header/trailer checks: C08_pp_tokens; concrete literal-run "
          "encoder C08_pp_roundtrip); "
-         "ARC RLE90 for every well-formed token stream and for the concrete encoder (C08_rle90_roundtrip, C08_rle90_encoder). BYTE-LEVEL "
+         "ARC RLE90 for every well-formed token stream and for the concrete encoder (C08_rle90_roundtrip, C08_rle90_encoder); ARC squeeze (method 4, "
+         "arc_unpack_huffman_rle90): node-count and child-index tests, arc_huffman_check_tree, the 11-bit lookup + bit walk, end-of-stream code and the "
+         "RLE90 stage over the 8192-byte window blocks invert the encoder for EVERY code tree of at most HUFFMAN_TREE_MAX = 256 nodes (257 symbols) and "
+         "every well-formed RLE90 token stream (C08_squeeze_huffman_roundtrip, C08_squeeze_roundtrip); the size boundary -- exactly 256 nodes accepted "
+         "and decoding every byte string, 257 refused -- is C08_squeeze_tree_limit (limit and comparison generated from the C); the copy stage of the "
+         "LHA -lh4-..-lh7- decoders with the history ring PRE-FILLED WITH BLANKS (fill value generated from the memset of init_ring_buffer): the first "
+         "copy command of a stream yields blanks whatever its offset, an encoder that codes leading blanks as matches into the dictionary before the "
+         "file is inverted (C08_lh_new_blank_dictionary, C08_lh_new_lead_roundtrip, C08_lha_new_decoder; the Huffman stage is a parameter). BYTE-LEVEL "
          "FRAMING theorems: gzip (above); ARC/Spark arc_read on bytes: header walk over excluded members, member selection, stored + RLE90 "
          "methods, CRC-16 gate (C08_arc_framing), sub-directories as nested archives with the walker's directory level: members inside "
-         "open or after closed Spark / ARC 6 directories of any depth are reached (C08_arc_framing_dirs); zip: end-of-central-directory record, central directory walk and local headers yield "
+         "open or after closed Spark / ARC 6 directories of any depth are reached (C08_arc_framing_dirs), also when the member is squeezed "
+         "(C08_arc_framing_squeeze, C08_pipeline_arc_squeeze: no decoder hypothesis); zip: end-of-central-directory record, central directory walk and local headers yield "
          "exactly the written members, stored members come back unconditionally and deflated ones given a correct inflate (C08_zip_members, "
          "C08_zip_framing), miniz' 4096-byte window search with 3-byte overlap finds the last record behind every legal archive comment "
          "(C08_zip_eocd_scan, C08_zip_framing_comment); LHA: the lhasa reader model (archive start search, header levels 0/1/2 with length/checksum tests, name fields, "
@@ -63,19 +71,34 @@ MANIFEST = dict(
          "generated depacker_list all signature tests except LHA's are pairwise exclusive, so the dispatch order matters for LHA only "
          "(C08_tests_exclusive, C08_dispatch_of_test, C08_dispatch_gzip). The model is tied to the C on every run by regenerated facts "
          "(depacker_list order and magic tests, exclude globs, sniff limits, gzip flag bits, MD5 step table, BUFLEN) and by differential "
-         "correspondence: real md5.c, depacker test functions, libxmp_exclude_match, arc_unpack(RLE90), link-time spies inside "
+         "correspondence: real md5.c, depacker test functions, libxmp_exclude_match, arc_unpack(RLE90), arc_unpack(squeezed) incl. mutated / truncated streams, "
+         "the LHA copy stage on the command lists of the python -lh5- encoder, link-time spies inside "
          "xmp_load_module, and the real depack() entry points (decrunch_compress, decrunch_pp, arc_read, arcfs_read, lzx_read, decrunch_mmcmp, decrunch_zip, decrunch_lha) run on "
          "streams of the independent python writers, on streams/archives written by the LEAN encoders of the theorems (lzwEncode, ppEncode, "
-         "arcWrap / arcfsWrap + rle90Enc, zipWrap, lhaWrap, lzxWrap, mmcmpWrap, mmcmpWrapK + mmEncode8; the zip writer is refereed by python zipfile) and on mutated streams, compared with the Lean "
+         "arcWrap / arcfsWrap + rle90Enc, squeeze, lhNewEncodeLead (+ python Huffman stage), zipWrap, lhaWrap, lzxWrap, mmcmpWrap, mmcmpWrapK + mmEncode8; the zip writer is refereed by python zipfile) and on mutated streams, compared with the Lean "
          "decoders (for LHA also the repository's LH1/5/6/7 archives, header walk only; for MMCMP the complete model incl. both block decoders on files of an "
          "independent python compressor: 8/16-bit adaptive widths, DELTA, ABS16, shuffled sub-blocks, several blocks, end markers). A direct "
          "oracle loads archives produced by independent encoders through the real library; it includes payload boundary classes "
          "(modules and raw payloads that begin and end with runs of 1..6 equal bytes of the same value, all-zero / all-0xFF, 0/2/4 "
-         "sample bytes, lengths 1..4) through every codec, and excluded `*.ext` members inside sub-directories in front of a module "
-         "that sits in a sub-directory (zip, LZX, LHA, ARC, ArcFS).",
-    note="PARTIAL: the entropy decoders inflate, bzip2, LZMA2, LH1/5/6/7, LZX, ARC squeeze/crunch/squash, SQSH and S404 "
-         "are parameters of the model, not proved (exercised by the oracle against independent encoders only); LZW of compress(1), PowerPacker "
-         "and RLE90 are modelled and proved completely (PowerPacker for every legal token stream; bit_buffer/todo are unbounded naturals in the "
+         "sample bytes, lengths 1..4; titles padded with blanks / NULs / letters and payloads that begin with long runs of them; one / two / all "
+         "256 / all-but-one byte values; inputs cut around the code-width and table-full points of the ARC LZW methods) through every codec -- "
+         "including own independent encoders for LHA -lh4-/-lh5-/-lh6-/-lh7- (LZ77 with matches into the blank dictionary before the file + static "
+         "Huffman blocks), ARC squeeze (Huffman node table over RLE90) and ARC crunch / squash / Spark compress (LZW 9..16 bit) in ARC, Spark and ArcFS, and excluded `*.ext` members inside sub-directories in front of a module "
+         "that sits in a sub-directory (zip, LZX, LHA, ARC, ArcFS)."
+         " DEFLATE: XmpModel.Inflate mirrors libxmp_tinfl_decompress as libxmp calls it (stored / fixed / dynamic blocks, tinfl's "
+         "table-acceptance rule incl. empty and one-symbol code sets, symbols 286/287 and 30/31, distance and end-of-input tests); "
+         "XmpProps.C08Inflate proves canonical Huffman decoding for every complete code, inflate o deflate = id for the Lean encoders over "
+         "any mixture of stored, fixed and dynamic blocks and every LZ77-valid token list, progress and work bounds, and the gzip / zip "
+         "pipelines without decoder hypothesis for such streams (C08_pipeline_gzip_deflate, C08_pipeline_zip_deflate). BZIP2: "
+         "XmpModel.Bzip2 mirrors bunzip2.c; XmpProps.C08Bzip2 proves the final run-length stage, the inverse BWT against the "
+         "sorted-rotation BWT, MTF/RUNA-RUNB, canonical tables for every Kraft-valid length assignment 1..20, bunzip2 (bzip2 p) = p "
+         "for every payload and level, and C08_pipeline_bzip2 without decoder hypothesis (sub-checks tools/c08_inflate.py, tools/c08_bzip2.py).",
+    note="PARTIAL: the entropy decoders inflate, bzip2, LZMA2, LH1 and the Huffman stage of LH4/5/6/7 (their copy stage is modelled), LZX, ARC "
+         "crunch/squash/compress, SQSH and S404 are parameters of the model, not proved (exercised by the oracle against independent encoders only); LZW of compress(1), PowerPacker "
+         ", RLE90 and ARC squeeze are modelled and proved completely (squeeze: the lookup table of the C is modelled by its meaning -- the first 11 "
+         "code bits may be zero bits behind the data, later ones not; the pipeline theorem for squeezed members takes the signature test of the first "
+         "header as a hypothesis); the -lh4-..-lh7- ring of 2^HISTORY_BITS bytes is represented by the unbounded history initial window ++ output, "
+         "equivalent for offsets below the ring size (tied on command lists); also (PowerPacker for every legal token stream; bit_buffer/todo are unbounded naturals in the "
          "model, the C widths suffice for efficiency bytes <= 15 and files below 1 GiB), the LZW theorem excludes maxbits=9 (the decoder lineage switches to 10-bit codes when the 9-bit table "
          "is full, compress(1) does not; the model mirrors the decoder). uncompress.c's input buffering (IBUFSIZ refills) is abstracted to a "
          "contiguous stream (refills happen on code-group boundaries); tied on streams spanning many buffers. Byte-level framing theorems exist "
@@ -105,6 +128,8 @@ REQUIRED = ["Xmp.Container." + n for n in (
     "C08_lzw_input_macro", "C08_lzw_align", "C08_lzw_roundtrip", "C08_pipeline_compress",
     "C08_pp_read_bits", "C08_pp_roundtrip", "C08_pp_tokens", "C08_pipeline_pp", "C08_pipeline_pp_tokens",
     "C08_zip_members", "C08_zip_framing", "C08_zip_eocd_scan", "C08_zip_framing_comment", "C08_pipeline_zip", "C08_lha_framing", "C08_pipeline_lha", "C08_arcfs_framing", "C08_pipeline_arcfs", "C08_lzx_framing", "C08_pipeline_lzx", "C08_mmcmp_framing", "C08_pipeline_mmcmp", "C08_mmcmp_unpack8", "C08_mmcmp_framing_packed", "C08_pipeline_mmcmp_packed",
+    "C08_squeeze_huffman_roundtrip", "C08_squeeze_roundtrip", "C08_squeeze_tree_limit", "C08_arc_framing_squeeze", "C08_pipeline_arc_squeeze",
+    "C08_lh_new_blank_dictionary", "C08_lh_new_lead_roundtrip", "C08_lha_new_decoder",
     "C08_rle90_encoder", "C08_arc_framing", "C08_arc_framing_dirs", "C08_pipeline_arc", "C08_pipeline_arc_rle90")]
 
 WRAPS = ["-Wl,--wrap=libxmp_exclude_match", "-Wl,--wrap=libxmp_tinfl_decompress_mem_to_heap",
@@ -229,6 +254,14 @@ def boundary_mods(rng, quick):
                 out.append(("gen/bnd-%02x-%d-%d" % (b, k, j), boundary_mod(rng, b, k, j)))
     for w in (1, 2):
         out.append(("gen/bnd-words%d" % w, gen_mod(rng, npat=1, total_words=w)))
+    # titles padded with blanks / NULs / letters to the full 20 bytes, and a short text followed by the padding: LZ77
+    # codecs whose dictionary is pre-filled (LHA: blanks) may code the beginning as a match that reaches before byte 0
+    for b in (0x20, 0x00, 0x61):
+        out.append(("gen/bnd-title20-%02x" % b, boundary_mod(rng, b, 20, rng.randint(1, 4))))
+        m = bytearray(boundary_mod(rng, b, 20, 0))
+        t = rng.choice([b"x", b"song", b"my tune 1"])
+        m[0:len(t)] = t
+        out.append(("gen/bnd-title%d+pad-%02x" % (len(t), b), bytes(m)))
     return out
 
 
@@ -252,6 +285,61 @@ def boundary_payloads(rng, quick):
             out.append(("all-%02x-%d" % (b, n), bytes([b]) * n))
     for n in (1, 2, 3, 4):
         out.append(("len%d" % n, bytes(rng.getrandbits(8) for _ in range(n))))
+    # begins with a long run of blanks / NULs / letters (pre-filled LZ77 dictionaries), then data
+    for b in (0x20, 0x00, 0x61):
+        for k in ([3, 20, 300] if quick else [1, 2, 3, 4, 19, 20, 21, 256, 257, 300, 9000]):
+            tail = bytes(rng.getrandbits(8) for _ in range(rng.choice([0, 1, 40, 2000])))
+            if tail and tail[0] == b:
+                tail = bytes([b ^ 0x55]) + tail[1:]
+            out.append(("lead%d-%02x" % (k, b), bytes([b]) * k + tail))
+    # alphabet classes for the Huffman stages: one value, two values, every byte value (full code tree), every value but one
+    for n in ([1, 600] if quick else [1, 2, 600, 20000]):
+        out.append(("one-value-%d" % n, bytes([rng.choice([0x00, 0x41, 0x90, 0xff])]) * n))
+    a, b = rng.sample(range(256), 2)
+    out.append(("two-values", bytes(rng.choice([a, b]) for _ in range(rng.choice([2, 50, 3000])))))
+    out.append(("two-values-9041", bytes(rng.choice([0x90, 0x41]) for _ in range(200))))
+    for extra in ([0, 3000] if quick else [0, 1, 256, 3000, 50000]):
+        l = list(range(256))
+        rng.shuffle(l)
+        out.append(("all256+%d" % extra, bytes(l) + bytes(rng.getrandbits(8) for _ in range(extra))))
+    l = [x for x in range(256) if x != rng.randrange(256)]
+    rng.shuffle(l)
+    out.append(("all-but-one", bytes(l) * 2))
+    l = list(range(256))
+    rng.shuffle(l)
+    out.append(("all256-skewed", b"".join(bytes([x]) * (1 + (i * i) // 40) for i, x in enumerate(l))))
+    return out
+
+
+def lzw_boundary_payloads(rng, quick):
+    """(name, payload, method, stream): inputs cut around the points where the ARC LZW coder (crunch 12 bit after RLE90,
+    squash 13 bit, Spark compress 9..16 bit) widens its codes and where its table becomes full, +-2 bytes"""
+    out = []
+    base = bytes(rng.getrandbits(8) for _ in range(40000))
+    base = bytes(b if b != 0x90 else 0x91 for b in base)
+    for what, mb in (("crunch", 12), ("squash", 13), ("compress", rng.choice([9, 10, 11])), ("compress", rng.choice([14, 15, 16]))):
+        n = {9: 1200, 10: 2500, 11: 5000, 12: 9000, 13: 18000, 14: 36000, 15: 72000, 16: 150000}[mb]
+        src = base * (n // len(base) + 1)
+        src = src[:n] if n <= len(base) else bytes(rng.getrandbits(7) for _ in range(n))
+        st = {}
+        W.arc_lzw(W.rle90_encode(src) if what == "crunch" else src, mb, 0, stats=st)
+        ev = st["events"]
+        if not any(e[0] == "full" for e in ev):
+            raise vlib.InfraError("LZW boundary generator: table of %d bits not filled by %d bytes" % (mb, n))
+        if quick:
+            other = [e for e in ev if e[0] != "full"]
+            ev = [e for e in ev if e[0] == "full"] + rng.sample(other, min(1, len(other)))
+        for name, pos in ev:
+            for d in ((-1, 0, 1, 2) if quick else (-3, -2, -1, 0, 1, 2, 3, 9)):
+                cut = pos + d
+                if what == "crunch":
+                    # positions are in the RLE90 stream; the data has no runs and no 0x90, so they are input positions too
+                    pass
+                if 0 < cut <= len(src):
+                    out.append(("%s%d-%s%+d" % (what, mb, name, d), src[:cut], what, mb))
+                    if name == "full" and d in (0, 2):
+                        # the bytes that formed the last table entries once more: the codes next to the table end get used
+                        out.append(("%s%d-%s%+d-again" % (what, mb, name, d), src[:cut] + src[max(0, cut - 400):cut], what, mb))
     return out
 
 
@@ -271,6 +359,21 @@ def corr_boundary(ck, exe, workdir, quick):
                    ("lzx", W.lzx_archive([("a.mod", p)])),
                    ("arc", W.arc_archive([("A.MOD", p, 3)], rng.random() < 0.5)),
                    ("arcfs", W.arcfs_archive([("a/mod", p, 0x83)]))]
+        # static-Huffman LHA methods (own LZ77 + Huffman encoder; the dictionary in front of the file holds blanks)
+        for m in ([b"-lh5-", rng.choice([b"-lh4-", b"-lh6-", b"-lh7-"])] if quick else [b"-lh4-", b"-lh5-", b"-lh6-", b"-lh7-"]):
+            streams.append(("lha", W.lha_archive([("a.mod", p, m, W.lh_new_encode(p, m, rng)[0])], rng.choice([0, 1, 2]))))
+        # ARC squeeze (RLE90 + Huffman, node table), crunch / squash / compress (LZW), in ARC, Spark and ArcFS containers
+        shape = rng.choice(["huffman", "huffman", "random", "chain"])
+        streams.append(("arc", W.arc_archive([("A.MOD", p, 4, W.squeeze_encode(p, rng, shape))], rng.random() < 0.5)))
+        streams.append(("arcfs", W.arcfs_archive([("a/mod", p, 0x84, W.squeeze_encode(p, rng, "huffman"))])))
+        rs = rng.choice([0, 0, 40]) if len(p) > 4000 else rng.choice([0, 1, 5])
+        streams.append(("arc", W.arc_archive([("A.MOD", p, 8, W.arc_crunch(p, rs))], rng.random() < 0.5)))
+        streams.append(("arc", W.arc_archive([("A.MOD", p, 9, W.arc_squash(p, rs))], rng.random() < 0.5)))
+        mb = rng.randint(9, 16)
+        streams.append(("arc", W.arc_archive([("A.MOD", p, 0x7f, W.spark_compress(p, mb, rs))], True)))
+        streams.append(("arcfs", W.arcfs_archive([("a/mod", p, 0x88, W.arc_lzw(W.rle90_encode(p), 12, rs), 12)])))
+        mb = rng.randint(10, 16)
+        streams.append(("arcfs", W.arcfs_archive([("a/mod", p, 0xff, W.arc_lzw(p, mb, rs), mb)])))
         if len(p) < (1 << 16):
             streams.append(("pp", W.pp20(p, use_matches=True, max_match=rng.choice([5, 40, 300]))))
         if len(p) >= 16:
@@ -279,6 +382,21 @@ def corr_boundary(ck, exe, workdir, quick):
         for codec, st in streams:
             items.append((codec, st))
             meta.append((codec, name, p))
+    # code-width and table-full boundaries of the ARC LZW methods
+    for name, p, what, mb in lzw_boundary_payloads(rng, quick):
+        if what == "crunch":
+            sts = [("arc", W.arc_archive([("A.MOD", p, 8, W.arc_crunch(p))], rng.random() < 0.5)),
+                   ("arcfs", W.arcfs_archive([("a/mod", p, 0x88, W.arc_lzw(W.rle90_encode(p), 12), 12)]))]
+        elif what == "squash":
+            sts = [("arc", W.arc_archive([("A.MOD", p, 9, W.arc_squash(p))], rng.random() < 0.5))]
+        else:
+            sts = [("arc", W.arc_archive([("A.MOD", p, 0x7f, W.spark_compress(p, mb))], True))]
+            if mb > 9:
+                sts.append(("arcfs", W.arcfs_archive([("a/mod", p, 0xff, W.arc_lzw(p, mb), mb)])))
+        for codec, st in sts:
+            items.append((codec, st))
+            meta.append((codec, name, p))
+        ck.bump("lzw_boundary_streams", len(sts))
     real = run_dp(ck, exe, workdir, "boundary", items)
     if real is None:
         return
@@ -368,12 +486,12 @@ def zip_comment(rng, n):
     return bytes(rng.choice(b"abcdefghijklmnopqrstuvwxyz0123456789 PK.") for _ in range(n))
 
 
-def arc_random_tree(rng, p, nm, meth, placement, depth):
+def arc_random_tree(rng, p, nm, meth, placement, depth, packed=None):
     """ARC/Spark node list with nested directories of the given depth; the module sits before / inside / after the
     (closed) sub-directories; excluded companions are spread over all levels"""
     def junk():
         return [("file", n, d, rng.choice([2, 3])) for n, d in companions(rng, ["ReadMe", "README", "A.TXT", "x/i.nfo", "InfoText"], maxn=2)]
-    mod = ("file", nm, p, meth)
+    mod = ("file", nm, p, meth, packed)
     inner_at = rng.randint(1, depth)          # level that holds the module when it is inside
 
     def build(level):
@@ -514,30 +632,59 @@ def make_archive(rng, fmt, p, xzmax, force=None):
         nm = rnd_name(rng)
         if sub or rng.random() < 0.3:
             nm = rng.choice(["mods/", "a/b/"]) + nm
-        members = pre + [(nm, p)] + post
+        meth = force.get("lha_method", rng.choice([b"-lh0-", b"-lh0-", b"-lh5-", b"-lh5-", b"-lh4-", b"-lh6-", b"-lh7-"]))
+        if len(p) > 300000:
+            meth = b"-lh0-"
+        if meth == b"-lh0-":
+            members = pre + [(nm, p)] + post
+        else:
+            st, toks = W.lh_new_encode(p, meth, rng)
+            members = pre + [(nm, p, meth, st)] + post
+            r.update(dict(prefile_match=bool(toks) and not isinstance(toks[0], int), tokens=len(toks)))
         if rng.random() < 0.2:
             members = [("dir/", b"")] + members
         a = W.lha_archive(members, lv, osid=osid)
-        r.update(dict(level=lv, os=osid.decode(), members=[m[0] for m in members]))
+        r.update(dict(level=lv, os=osid.decode(), method=meth.decode(), members=[m[0] for m in members]))
     elif fmt == "arc":
         spark = rng.random() < 0.4
         pre, post = split_companions(rng, companions(rng, ARC_EXCLUDED))
-        meth = rng.choice([2, 3, 3] if spark else [1, 2, 3, 3])
+        meth = force.get("arc_method", rng.choice([2, 3, 3, 4, 4, 8, 9, 0x7f] if spark else [1, 2, 3, 3, 4, 4, 8, 9]))
         nm = rng.choice(["SONG.MOD", "TEST.XM", "A", "MODULE", "tune/it"])
-        members = [(n, d, rng.choice([2, 3])) for n, d in pre] + [(nm, p, meth)] + [(n, d, 2) for n, d in post]
+        packed = None
+        if meth == 4:
+            shape = rng.choice(["huffman", "huffman", "huffman", "random"])
+            packed = W.squeeze_encode(p, rng, shape)
+            r.update(dict(tree_shape=shape, nodes=struct.unpack("<H", packed[:2])[0]))
+        elif meth in (8, 9, 0x7f):
+            rs = rng.choice([0, 0, 0, 300, 5000])
+            mb = {8: 12, 9: 13}.get(meth) or rng.randint(9, 16)
+            packed = W.arc_crunch(p, rs) if meth == 8 else W.arc_squash(p, rs) if meth == 9 else W.spark_compress(p, mb, rs)
+            r.update(dict(reset_every=rs, maxbits=mb))
+        members = [(n, d, rng.choice([2, 3, 4, 8])) for n, d in pre] + [(nm, p, meth, packed)] + [(n, d, 2) for n, d in post]
         placement = force.get("tree", rng.choice([None, None, "before", "inside", "after", "after-inner"]))
         if placement:
             depth = force.get("depth", rng.randint(1, 3))
-            a = W.arc_tree(arc_random_tree(rng, p, nm, meth, placement, depth), spark)
+            a = W.arc_tree(arc_random_tree(rng, p, nm, meth, placement, depth, packed), spark)
             r.update(dict(spark=spark, method=meth, tree=placement, depth=depth))
         else:
             a = W.arc_archive(members, spark)
             r.update(dict(spark=spark, method=meth, members=[m[0] for m in members]))
     elif fmt == "arcfs":
         pre, post = split_companions(rng, companions(rng, ["ReadMe", "README", "readme", "A.TXT", "InfoText", "x.doc", "d/A.TXT", "a/b/x.doc"]))
-        meth = rng.choice([0x82, 0x83])
+        meth = force.get("arcfs_method", rng.choice([0x82, 0x83, 0x83, 0x84, 0x84, 0x88, 0x89, 0xff]))
         nm = rng.choice(["song/mod", "test/xm", "a", "module"])
-        members = [(n, d, rng.choice([0x82, 0x83])) for n, d in pre] + [(nm, p, meth)] + [(n, d, 0x82) for n, d in post]
+        mem = (nm, p, meth)
+        if meth == 0x84:
+            mem = (nm, p, meth, W.squeeze_encode(p, rng, rng.choice(["huffman", "huffman", "random"])))
+        elif meth == 0x88:
+            mem = (nm, p, meth, W.arc_lzw(W.rle90_encode(p), 12, rng.choice([0, 0, 300])), 12)
+        elif meth == 0x89:
+            mem = (nm, p, meth, W.arc_squash(p, rng.choice([0, 0, 300])))
+        elif meth == 0xff:
+            mb = rng.randint(10, 16)
+            mem = (nm, p, meth, W.arc_lzw(p, mb, rng.choice([0, 0, 300])), mb)
+            r.update(dict(maxbits=mb))
+        members = [(n, d, rng.choice([0x82, 0x83, 0x84])) for n, d in pre] + [mem] + [(n, d, 0x82) for n, d in post]
         a = W.arcfs_archive(members, pad_entries=rng.choice([0, 0, 1, 3]))
         r.update(dict(method=meth, members=[m[0] for m in members]))
     elif fmt == "lzx":
@@ -865,6 +1012,177 @@ def corr_rle(ck, exe, workdir, n):
             ck.unproved("correspondence Container.unrle90 vs arc_unpack(ARC_M_PACKED)", "packed=%s dest_len=%d real=%s model=%s" % (p.hex(), d, a, b))
             return
     ck.cov["traces_validated_against_impl"] += len(cases)
+
+
+def sq_payload(rng, big=True):
+    n = rng.choice([0, 1, 2, 5, 100, 3000, 8192, 8193, 16384, 20000] if big else [0, 1, 2, 5, 100, 3000])
+    kind = rng.choice(["rand", "low", "text", "one", "two", "all256", "runs", "rle"])
+    if kind == "rand":
+        return bytes(rng.getrandbits(8) for _ in range(n))
+    if kind == "low":
+        return bytes(rng.getrandbits(2) for _ in range(n))
+    if kind == "text":
+        return (b"hello world, this is a test. " * (n // 20 + 1))[:n]
+    if kind == "one":
+        return bytes([rng.choice([0, 0x41, 0x90, 0xff])]) * n
+    if kind == "two":
+        return bytes(rng.choice([0x41, 0x90]) for _ in range(n))
+    if kind == "all256":
+        l = list(range(256)) * rng.choice([1, 1, 3])
+        rng.shuffle(l)
+        return bytes(l) + bytes(rng.getrandbits(8) for _ in range(n))
+    if kind == "rle":
+        return bytes(rng.choice([0x90, 0x90, 0x41, 0, 1, 2, 3, 255]) for _ in range(n))
+    return b"".join(bytes([rng.getrandbits(8)]) * rng.choice([1, 2, 3, 4, 10, 300]) for _ in range(max(1, n // 20)))
+
+
+def sq_tree_spec(t):
+    return "l%d" % t if isinstance(t, int) else "n." + sq_tree_spec(t[0]) + "." + sq_tree_spec(t[1])
+
+
+def corr_squeeze(ck, exe, workdir, n):
+    """Container.unsqueeze (model of arc_unpack_huffman_rle90: node table tests, arc_huffman_check_tree, 11-bit lookup +
+    bit walk, end-of-stream code, RLE90 over the 8192-byte window blocks) vs the REAL arc_unpack(method 4) on: streams of
+    the independent python squeezer (Huffman / random / degenerate trees, tables of 1..256 nodes), streams written by the
+    LEAN encoder `squeeze` + `rle90Enc` (object of C08_squeeze_roundtrip), mutated, truncated and extended streams."""
+    rng = ck.rng
+    cases = []
+    for i in range(n):
+        p = sq_payload(rng)
+        shape = rng.choice(["huffman", "huffman", "random", "chain"])
+        cases.append((W.squeeze_encode(p, rng, shape), len(p), p, "python-squeezer " + shape))
+    if ck.lean_ok:
+        enc = []
+        for i in range(n // 2):
+            p = sq_payload(rng, big=False)
+            shape = rng.choice(["huffman", "random", "chain"])
+            freq = [1] * 257          # every byte value and the end-of-stream symbol get a leaf: 256 nodes
+            if shape == "huffman":
+                for b in W.rle90_encode(p):
+                    freq[b] += 1
+            enc.append(("sqenc %s %s" % (sq_tree_spec(W.squeeze_tree(freq, rng, shape)), p.hex() or "-"), p))
+        out = vlib.run_driver("drv_c08", "".join(l + "\n" for l, _ in enc), timeout=3000)
+        for (l, p), o in zip(enc, out):
+            cases.append((bytes.fromhex(o[2:]) if o[2:] != "-" else b"", len(p), p, "lean-squeezer"))
+    legit = len(cases)
+    for i in range(4 * n):
+        st, dl, p, tag = cases[rng.randrange(legit)]
+        a = bytearray(st)
+        how = rng.random()
+        if how < 0.5:
+            for _ in range(rng.choice([1, 1, 2, 4])):
+                k = rng.randrange(0, min(len(a), 2 + 4 * 16)) if rng.random() < 0.5 else rng.randrange(len(a))
+                a[k] = rng.choice([a[k] ^ (1 << rng.randrange(8)), 0, 1, 0xff, 0x80, rng.getrandbits(8)])
+        elif how < 0.75:
+            a = a[:rng.randrange(1, len(a) + 1)]
+        else:
+            a = a + bytes(rng.getrandbits(8) for _ in range(rng.randint(1, 4)))
+        cases.append((bytes(a), max(0, dl + rng.choice([0, 0, 0, -1, 1, 5])), None, "mutated " + tag))
+    cf = os.path.join(workdir, "sqcases.txt")
+    open(cf, "w").write("".join("%s %d 4\n" % (st.hex() or "-", d) for st, d, _, _ in cases))
+    rc, out, err = vlib.run_exe(exe, ["rle", cf])
+    if rc != 0:
+        ck.violation("harness-abort:squeeze:" + vlib.sanitizer_signature(err), {"cases": cf, "stderr": err[-2000:]},
+                     "arc_unpack(method 4) aborted on a generated stream")
+        return
+    real = out.decode().splitlines()
+    ck.bump("squeeze_streams", len(cases))
+    ck.bump("squeeze_streams_accepted", sum(1 for l in real if l.startswith("r 1")))
+    for (st, d, p, tag), r in zip(cases, real):
+        if p is not None and r != "r 1 %s" % (p.hex() or "-"):
+            if tag.startswith("lean"):
+                ck.unproved("correspondence Container.squeeze (Lean encoder) vs arc_unpack(ARC_M_SQUEEZED)", "%s (%d bytes): real=%s" % (tag, len(p), r[:80]))
+            else:
+                ck.violation("oracle:squeeze:stream", {"stream_hex": st.hex() if len(st) < 40000 else None, "payload_hex": p.hex() if len(p) < 40000 else None,
+                                                       "what": tag, "nodes": struct.unpack("<H", st[:2])[0]},
+                             "arc_unpack(ARC_M_SQUEEZED) does not return the payload of a legal squeezed stream (%s, %d nodes): %s" % (
+                                 tag, struct.unpack("<H", st[:2])[0], r[:60]))
+            return
+    if not ck.lean_ok:
+        return
+    model = vlib.run_driver("drv_c08", "".join("sq %s %d\n" % (st.hex() or "-", d) for st, d, _, _ in cases), timeout=3000)
+    for (st, d, p, tag), a, b in zip(cases, real, model):
+        if a != b:
+            ck.unproved("correspondence Container.unsqueeze vs arc_unpack(ARC_M_SQUEEZED)", "%s dest_len=%d stream=%s real=%s model=%s" % (
+                tag, d, st[:80].hex(), a[:60], b[:60]))
+            return
+    ck.cov["traces_validated_against_impl"] += len(cases)
+
+
+LH_RING = {b"-lh4-": 1 << 14, b"-lh5-": 1 << 14, b"-lh6-": 1 << 16, b"-lh7-": 1 << 17}
+
+
+def lh_tokstr(toks):
+    return ",".join(("l%02x" % t) if isinstance(t, int) else "c%d.%d" % t for t in toks)
+
+
+def corr_lhnew(ck, exe, workdir, n):
+    """copy stage of lh_new_decoder.c (history ring pre-filled with blanks): the command lists of the python -lh4-..-lh7-
+    encoder go through the REAL decoder as complete archives and through Container.lhNewExpand; the LEAN encoder
+    lhNewEncodeLead (leading blanks as matches into the dictionary before the file, object of C08_lh_new_lead_roundtrip)
+    is completed by the python Huffman stage and decoded by the REAL decoder."""
+    rng = ck.rng
+    items, exp, lines, tags = [], [], [], []
+    for i in range(n):
+        body = bytes(rng.choice([0x20, 0x20, 0x41, rng.getrandbits(8)]) for _ in range(rng.choice([0, 1, 5, 100, 3000])))
+        p = rng.choice([b"", b" ", b"  ", b" " * 3, b" " * 20, b"\0" * 20, b"a" * 20, b" " * 300, b" " * 600]) + body or b"x"
+        m = rng.choice(list(LH_RING))
+        st, toks = W.lh_new_encode(p, m, rng)
+        items.append(("lha", W.lha_archive([("a.mod", p, m, st)], rng.choice([0, 1, 2]))))
+        exp.append(p)
+        lines.append("lhnew %d %s" % (LH_RING[m], lh_tokstr(toks)))
+        tags.append("python-encoder %s first=%s" % (m.decode(), toks[0] if toks else None))
+    if ck.lean_ok:
+        lead = []
+        for i in range(n // 2):
+            k = rng.choice([0, 1, 2, 3, 4, 20, 255, 256, 257, 258, 259, 456, 457, 1000])
+            p = b" " * k + bytes(rng.choice([0x20, 0x41, rng.getrandbits(8)]) for _ in range(rng.choice([0, 1, 30])))
+            if p[k:k + 1] == b" ":
+                p = p[:k] + b"x" + p[k + 1:]
+            p = p or b"y"
+            m = rng.choice(list(LH_RING))
+            lead.append((p, m, rng.choice([0, 1, 5, W.LH_NEW[m][0] - 1])))
+        out = vlib.run_driver("drv_c08", "".join("lhlead %d %s\n" % (o, p.hex()) for p, m, o in lead), timeout=3000)
+        for (p, m, o), l in zip(lead, out):
+            toks = []
+            for t in l[2:].split(","):
+                if t.startswith("l"):
+                    toks.append(int(t[1:3], 16))
+                elif t.startswith("c"):
+                    a, b = t[1:].split(".")
+                    toks.append((int(a), int(b)))
+            if any((not isinstance(t, int)) and not (3 <= t[1] <= 256 and t[0] < W.LH_NEW[m][0]) for t in toks):
+                ck.unproved("correspondence Container.lhNewEncodeLead vs the -lh5- format", "command outside the format: %s" % l[:100])
+                return
+            if W.lz_expand(toks) != p:
+                ck.unproved("correspondence Container.lhNewEncodeLead vs the -lh5- format", "commands do not mean the payload: %s" % l[:100])
+                return
+            st, _ = W.lh_new_encode(p, m, rng, toks=toks)
+            items.append(("lha", W.lha_archive([("a.mod", p, m, st)], 1)))
+            exp.append(p)
+            lines.append("lhnew %d %s" % (LH_RING[m], lh_tokstr(toks)))
+            tags.append("lean-encoder %s offset=%d blanks=%d" % (m.decode(), o, len(p) - len(p.lstrip(b" "))))
+    real = run_dp(ck, exe, workdir, "lhnew", items)
+    if real is None:
+        return
+    ck.bump("lh_new_streams", len(items))
+    ck.bump("lh_new_streams_starting_with_a_prefile_match", sum(1 for t in tags if "first=(" in t or ("lean" in t and "blanks=0" not in t)))
+    for p, r, tag, (_, a) in zip(exp, real, tags, items):
+        if r != "D ok %d %016x" % (len(p), fnv1a(p)):
+            if tag.startswith("lean"):
+                ck.unproved("correspondence Container.lhNewEncodeLead (Lean encoder) vs lha_lh_new_read", "%s: real=%s" % (tag, r))
+            else:
+                ck.violation("oracle:lha:stream", {"archive_hex": a.hex() if len(a) < 40000 else None, "payload_hex": p.hex() if len(p) < 40000 else None, "what": tag},
+                             "decrunch_lha does not return the member packed by an independent -lh4-..-lh7- encoder (%s): %s" % (tag, r))
+            return
+    if not ck.lean_ok:
+        return
+    model = vlib.run_driver("drv_c08", "".join(l + "\n" for l in lines), timeout=3000)
+    for p, r, m, tag in zip(exp, real, model, tags):
+        if m != r:
+            ck.unproved("correspondence Container.lhNewExpand vs lha_lh_new_read", "%s: real=%s model=%s" % (tag, r, m))
+            return
+    ck.cov["traces_validated_against_impl"] += len(items)
 
 
 DP_TIMEOUT = 120
@@ -1618,6 +1936,8 @@ def run(ck):
     corr_arcfs(ck, exe, workdir, 40 if quick else 500)
     corr_lzx(ck, exe, workdir, 40 if quick else 500)
     corr_mmcmp(ck, exe, workdir, 40 if quick else 500)
+    corr_squeeze(ck, exe, workdir, 40 if quick else 400)
+    corr_lhnew(ck, exe, workdir, 40 if quick else 400)
     corr_gzip(ck, exe, workdir, 40 if quick else 400)
     corr_boundary(ck, exe, workdir, quick)
 
@@ -1704,6 +2024,22 @@ def run(ck):
     for placement in ("before", "inside", "after", "after-inner"):
         for depth in ((1, 2) if quick else (1, 2, 3, 3)):
             plan.append((tiny if ck.rng.random() < 0.5 else ck.rng.choice(pool), "arc", {"tree": placement, "depth": depth}))
+    # static-Huffman LHA methods on the modules with padded titles (matches into the blank dictionary before the file)
+    titled = [p for p in bnd if len(p["data"]) > 20 and (p["data"][19:20] in (b" ", b"\0", b"a"))]
+    for p in titled:
+        for m in ([b"-lh5-", ck.rng.choice([b"-lh4-", b"-lh6-", b"-lh7-"])] if quick else [b"-lh4-", b"-lh5-", b"-lh6-", b"-lh7-"]):
+            plan.append((p, "lha", {"lha_method": m}))
+    ck.note("padded_title_modules", len(titled))
+    for m in (b"-lh5-", b"-lh6-", b"-lh7-", b"-lh4-"):
+        for _ in range(2 if quick else 10):
+            plan.append((ck.rng.choice(pool), "lha", {"lha_method": m}))
+    # ARC squeeze / crunch / squash / compress members (own Huffman and LZW encoders) in ARC, Spark and ArcFS
+    for m in (4, 4, 8, 9):
+        for _ in range(2 if quick else 8):
+            plan.append((ck.rng.choice(pool), "arc", {"arc_method": m}))
+    for m in (0x84, 0x88, 0x89, 0xff):
+        for _ in range(1 if quick else 6):
+            plan.append((ck.rng.choice(pool), "arcfs", {"arcfs_method": m}))
     # MMCMP bit-packed blocks (8/16 bit, DELTA, several sub-blocks per block)
     for _ in range(4 if quick else 20):
         plan.append((ck.rng.choice(pool), "mmcmp", {"packed": True, "kinds": ("8bit", "16bit")}))
@@ -1840,8 +2176,15 @@ def run(ck):
 
 
 def replay(ck, rp):
-    exe = build_harness()
     r = rp["replay"]
+    if isinstance(r, dict) and ("inflate_stream_hex" in r or "zlib_stream_hex" in r):
+        import c08_inflate
+        return c08_inflate.replay(ck, rp)
+    if isinstance(r, dict) and any(k.startswith("bzip2") for k in r):
+        import c08_bzip2
+        if hasattr(c08_bzip2, "replay"):
+            return c08_bzip2.replay(ck, rp)
+    exe = build_harness()
     workdir = os.path.join(vlib.OUT, "c08-replay")
     os.makedirs(workdir, exist_ok=True)
     if r.get("dp") and r.get("stream_hex") is not None:
